@@ -226,10 +226,19 @@ func c11Excluded(toks []string) string {
 		if a == "not" && b == "in" {
 			return "not-in-glue"
 		}
-		if a == "matches" && len(b) >= 2 && (b[0] == '"' || b[0] == '\'') {
-			// a literal pattern is compiled by the parser: an invalid one is rejected there (by design)
-			if _, err := regexp.Compile(b[1 : len(b)-1]); err != nil {
-				return "invalid-literal-pattern"
+		if a == "matches" {
+			// a literal pattern (parenthesised or not) is compiled by the parser: an invalid one is rejected there
+			// (by design)
+			j := i + 1
+			for j < len(toks) && toks[j] == "(" {
+				j++
+			}
+			if j < len(toks) {
+				if lit := toks[j]; len(lit) >= 2 && (lit[0] == '"' || lit[0] == '\'') {
+					if _, err := regexp.Compile(lit[1 : len(lit)-1]); err != nil {
+						return "invalid-literal-pattern"
+					}
+				}
 			}
 		}
 		if a == "?." && (b == "." || b == "?." || b == "?" || b == ".." || strings.HasPrefix(b, ".")) {
